@@ -53,6 +53,7 @@ FORMAT_OPT = ["ACP", "AFP", "AOP", "GP", "GL", "SNVDP"]
 SINGLETONS = ["INFO/" + x for x in INFO_OPT] + ["FORMAT/" + x for x in FORMAT_OPT]
 BARE = ["AFPRIOR", "ACP", "AFP", "AOP", "AOPSUM", "GP", "GL", "SNVDP"]
 N_FLAVORS = 8
+WIDE = 8   # extra flavour outside the rotation (g < 0): loci with 130-260 SNVs (SNV numbers beyond int8 / uint8)
 TRAILING = "posterior-field-cardinality-wrong-when-trailing-allele-masked"
 AFP_FAMILY = {"ACP", "AFP", "AOP", "AOPSUM"}
 EXTRA_PLOIDY = "info-afp-denominator-counts-ploidy-file-entries-not-in-output"
@@ -75,7 +76,7 @@ def required(tier):
         "records_no_snv": 600, "sample_columns_no_reads": 700, "records_refmasked_assemble": 150, "records_refmasked_call": 400,
         "records_noa": 150, "records_af0": 60, "lone_missing_vectors_on_noa_af0": 40, "records_mixed_ploidy": 900, "records_pooled": 300,
         "records_pedigree_trio": 80, "records_pedigree_halfsib": 40, "records_pedigree_unobserved_parent": 80,
-        "gt_checked": 7000, "gt_partially_missing": 300, "gt_all_missing": 500, "alts_checked_against_input": 6000,
+        "datasets_with_loci_over_127_snvs": 3, "gt_checked": 7000, "gt_partially_missing": 300, "gt_all_missing": 500, "alts_checked_against_input": 6000,
         "info_totals_recomputed": 3500, "optional_info_sums_recomputed": 6000, "optional_info_values_seen": 4000,
         "optional_format_values_seen": 9000, "sample_acp_afp_compared": 2000, "pysam_gts_compared": 7000, "records_zero_prior_allele": 250,
     }
@@ -144,7 +145,7 @@ def _pedigree(rng, names, ploidy_of, g):
 
 def build_case(seed, shard, dI, g):
     rng = gen.rng_for(seed, ID, shard, dI)
-    flavor = g % N_FLAVORS
+    flavor = WIDE if g < 0 else g % N_FLAVORS
     c = Case()
     c.key = [int(seed), int(shard), int(dI), int(g)]
     c.flavor = flavor
@@ -158,8 +159,13 @@ def build_case(seed, shard, dI, g):
     ploidies = [6] if flavor == 5 else ([2, 4, 6] if rng.random() < 0.8 else [int(rng.choice([2, 4, 6]))])
     depth = (0, 14) if (rng.random() < 0.5 or flavor == 7) else (5, 16)
     snv_range = (3, 5) if flavor == 5 else (0, 5)
-    ds = datasets.make_dataset(rng, c.root, n_samples=n_samples, n_loci=int(rng.integers(3, 6)), ploidy=ploidies, depth=depth, n_contigs=int(rng.integers(1, 3)),
-                               contig_len=900, snv_range=snv_range, hostile=0.1, rgs_per_sample=(1, 2), samples_per_bam=int(rng.choice([1, 1, 2])))
+    if flavor == WIDE:
+        n_samples = int(rng.integers(1, 3))
+        ds = datasets.make_dataset(rng, c.root, n_samples=n_samples, n_loci=2, ploidy=[2, 4], depth=(8, 14), n_contigs=1, contig_len=1300,
+                                   snv_range=(130, 260), hostile=0.05, locus_len=(280, 380), read_len=(60, 110))
+    else:
+        ds = datasets.make_dataset(rng, c.root, n_samples=n_samples, n_loci=int(rng.integers(3, 6)), ploidy=ploidies, depth=depth, n_contigs=int(rng.integers(1, 3)),
+                                   contig_len=900, snv_range=snv_range, hostile=0.1, rgs_per_sample=(1, 2), samples_per_bam=int(rng.choice([1, 1, 2])))
     c.ds = ds
     if flavor == 7 or rng.random() < 0.1:
         # one sample without a single read (its BAM region is empty everywhere)
@@ -907,11 +913,14 @@ def run_one(c, prog, kind, report, col, base_ok):
 
 def run_shard(tier, seed, spec, col):
     per = spec["datasets"]
-    for dI in range(per):
-        g = spec["shard"] * per + dI
+    wide = 1 if spec["shard"] % 4 == 0 else 0
+    for dI in range(per + wide):
+        g = spec["shard"] * per + dI if dI < per else -1
         c = build_case(seed, spec["shard"], dI, g)
         col.add_to_set("flavors", c.flavor)
         col.count("datasets_built")
+        if c.flavor == WIDE:
+            col.count("datasets_with_loci_over_127_snvs")
         try:
             for prog in PROGRAMS:
                 base_ok = True
